@@ -350,6 +350,16 @@ void save_option_file(FILE *pfile, bool with_doc = false, bool minimal = false);
 
 
 /**
+ * quote a text such that process_option_line() reads it back as one argument
+ * with exactly the same characters
+ *
+ * @param text    text of the argument
+ * @param always  add quotes even if the text could be written without
+ */
+std::string quote_config_arg(const std::string &text, bool always = false);
+
+
+/**
  * get the marker that was selected for the end of line via the config file
  *
  * @return "\n"     if newlines was set to LE_LF in the config file
